@@ -48,6 +48,9 @@ def run(ctx):
     ctx.not_decided = 'the order of arbitrary schedule/select histories (needs the list contents); concurrent use.'
     ra = ctx.rule('R09.a', 'ap / ip: sorted insertion with the priority comparator; pop from the advertised end; wrappers transparent', floor=9)
     rb = ctx.rule('R09.b', 'spq: queues in increasing distance; ring sorted into the queue of its distance; first non-empty queue served; under the list lock', floor=7)
+    rc9 = ctx.rule('R09.c', 'the sorted insertion the schedulers rely on puts every element of the ring through the sorted scan (rings handed to schedule() need not be sorted)', floor=1)
+    from rules.C31 import chain_sorted_all_through_scan
+    chain_sorted_all_through_scan(ctx, ctx.extract('parsec/mca/sched/ap/sched_ap_module.c'), rc9)
 
     # ---------------------------------------------------------------- ap / ip
     for mod, popfn in (('ap', POPF), ('ip', POPB)):
